@@ -206,5 +206,5 @@ Safety ==
   /\ OnlyVotersLead /\ NonVotingWitnessRoles /\ WitnessNoPayload /\ WitnessLogMeta
   /\ ReadIndexSafe /\ ReadIndexRespSafe
   /\ OneCCAtATime /\ RemovedNeverReadmitted /\ KindsDisjoint /\ MembershipHasVoter /\ KindOnlyPromotes
-  /\ CheckQuorumLease
+  /\ CheckQuorumLease /\ SnapshotMembershipInstalled
 =============================================================================
